@@ -90,10 +90,14 @@ AXES3 = {
     "skew": np.array([[0.5, 0.1, 0.0], [0.05, 0.6, 0.1], [0.0, -0.2, 0.4]]),
     "neg": np.array([[-0.5, 0.0, 0.0], [0.0, 0.6, 0.0], [0.0, 0.1, -0.4]]),
 }
+AXES3["left"] = np.array([[0.5, 0.0, 0.0], [0.0, 0.6, 0.1], [0.0, 0.0, -0.4]])   # det < 0 (left-handed)
+AXES3["swap"] = np.array([[0.0, 0.6, 0.0], [0.5, 0.0, 0.0], [0.1, 0.0, 0.4]])    # exchanged axis vectors, det < 0
 AXES2 = {
     "diag": np.diag([0.5, 0.7]),
     "skew": np.array([[0.5, 0.2], [-0.1, 0.6]]),
     "neg": np.array([[-0.5, 0.0], [0.1, -0.6]]),
+    "left": np.array([[0.5, 0.1], [0.0, -0.6]]),
+    "swap": np.array([[0.0, 0.6], [0.5, 0.1]]),
 }
 
 
@@ -157,7 +161,7 @@ def sub_weights(ctx):
     shapes2 = [(2, 2), (3, 5), (6, 2), (5, 5), (8, 3), (2, 7)]
     for scheme in ("Rectangle", "Trapezoid", "Fourier1", "Fourier2", "Alternative"):
         for dim, shapes, menu in ((3, shapes3, AXES3), (2, shapes2, AXES2)):
-            for shape, aname in itertools.product(shapes, ("diag", "skew")):
+            for shape, aname in itertools.product(shapes, ("diag", "skew", "left", "swap")):
                 ctx.count(section="weights")
                 case = {"sub": "weights", "scheme": scheme, "dim": dim, "shape": list(shape), "axes": aname}
                 axes = menu[aname]
@@ -334,6 +338,12 @@ def sub_cube(ctx):
                 bad = []
                 if tuple(g2.shape) != tuple(shape) or tuple(g3.shape) != tuple(shape):
                     bad.append("shape")
+                # the grid-only read (return_data=False, the default) must give the same grid
+                if not (np.array_equal(g3.origin, g2.origin) and np.array_equal(g3.axes, g2.axes)
+                        and np.array_equal(g3.points, g2.points) and np.array_equal(g3.weights, g2.weights)):
+                    bad.append("grid-only-read-differs-from-full-read")
+                if abs(np.sum(g2.weights) / np.sum(g.weights) - 1) > 1e-4:
+                    bad.append("weights")
                 if np.max(np.abs(g2.origin - origin)) > gt or np.max(np.abs(g2.axes - axes)) > gt:
                     bad.append("origin/axes")
                 if np.max(np.abs(g2.points - g.points)) > gt * (1 + max(shape) * 3):
